@@ -2,9 +2,12 @@ package props
 
 import (
 	"bytes"
+	"context"
 	"fmt"
 	"path/filepath"
 	"sort"
+	"sync"
+	"time"
 
 	"github.com/glebziz/fs_db"
 	"github.com/glebziz/fs_db/pkg/verif"
@@ -320,6 +323,165 @@ func c03ConflictStorm(tier string, seed int64, idx int, scratch string) rt.CaseR
 	c.AddDistinct(fmt.Sprintf("conflictstorm/%s/%d", modeName(mode), rounds/500*500))
 	if idx == 0 {
 		c.Sample = map[string]any{"rounds": rounds, "mode": modeName(mode)}
+	}
+	return c
+}
+
+func init() {
+	p := Registry["C03"]
+	p.Roles["commitcancel"] = Role{N: func(t string) int { return tierN(t, 8, 64) }, Case: c03CommitCancel}
+	p.Rule += " Role commitcancel: the context handed to Commit is cancelled while the commit is under way - by a context whose Err() turns from nil to Canceled after its k-th consultation (k = 0..8: the cancellation lands between any two look-ups the commit path makes) and by a timer after 0-3 ms - for commits of 1 to 1500 keys, all levels, inline and gRPC: a Commit that returns nil has published all its writes; one that returns an error has left the committed state unchanged, now, 30 ms later and after a reopen (through the server a cancellation can cross the answer: there the commit may have taken effect, but then completely)."
+}
+
+// flipCtx is a context that is alive for its first n consultations and cancelled from then on.
+type flipCtx struct {
+	context.Context
+	mu   sync.Mutex
+	left int
+	done chan struct{}
+}
+
+func newFlipCtx(n int) *flipCtx {
+	return &flipCtx{Context: context.Background(), left: n, done: make(chan struct{})}
+}
+
+func (f *flipCtx) flip() bool {
+	f.mu.Lock()
+	defer f.mu.Unlock()
+	if f.left > 0 {
+		f.left--
+		return false
+	}
+	select {
+	case <-f.done:
+	default:
+		close(f.done)
+	}
+	return true
+}
+
+func (f *flipCtx) Err() error {
+	if f.flip() {
+		return context.Canceled
+	}
+	return nil
+}
+
+func (f *flipCtx) Done() <-chan struct{} {
+	f.flip()
+	return f.done
+}
+
+// c03CommitCancel: a Commit whose context is cancelled on the way.
+func c03CommitCancel(tier string, seed int64, idx int, scratch string) rt.CaseResult {
+	var c rt.CaseResult
+	mode := dbx.Inline
+	if idx%4 == 3 {
+		mode = dbx.Grpc
+	}
+	env, err := dbx.Open(dbx.Options{Mode: mode, Dir: filepath.Join(scratch, "db")})
+	if err != nil {
+		c.Violate("open-failed", err.Error(), nil)
+		return c
+	}
+	defer func() { env.Close() }()
+	rng := seqrun.Rng(seed, "C03c", idx)
+	expect := map[string][]byte{}
+	verify := func(when string, plan map[string]any, keys []string) bool {
+		for _, k := range keys {
+			b, gerr := env.DB.Get(ctxBg, k)
+			want, has := expect[k]
+			if has && (gerr != nil || !bytes.Equal(b, want)) || !has && seqrun.Class(gerr) != refmodel.NotFound {
+				c.Violate("cancelled-commit-inconsistent "+when, fmt.Sprintf("%s: %q reads %s (%v), expected %s (has a value: %v)", when, k, seqrun.Describe(b), gerr, seqrun.Describe(want), has), plan)
+				return false
+			}
+		}
+		return true
+	}
+	var allKeys []string
+	seenKey := map[string]bool{}
+	for it := 0; it < tierN(tier, 12, 40); it++ {
+		rt.Beat()
+		nk := []int{1, 3, 40, 40, 400, 1500}[rng.Intn(6)]
+		if mode == dbx.Grpc && nk > 400 {
+			nk = 400
+		}
+		level := rng.Intn(4)
+		tx, err := env.DB.Begin(ctxBg, verif.IsoLevel(level))
+		if err != nil {
+			c.Violate("begin-failed", err.Error(), nil)
+			return c
+		}
+		writes := map[string][]byte{}
+		var keys []string
+		for i := 0; i < nk; i++ {
+			k := fmt.Sprintf("cc%d", (it*7+i)%1600)
+			v := seqrun.Content(fmt.Sprintf("cc%d-%d-%d", idx, it, i), 8)
+			if err := tx.Set(ctxBg, k, v); err != nil {
+				c.Violate("write-in-transaction-failed", err.Error(), nil)
+				return c
+			}
+			if _, dup := writes[k]; !dup {
+				keys = append(keys, k)
+			}
+			writes[k] = v
+			if !seenKey[k] {
+				seenKey[k] = true
+				allKeys = append(allKeys, k)
+			}
+		}
+		var ctx context.Context
+		how := ""
+		if it%2 == 0 && mode == dbx.Inline {
+			k := rng.Intn(9)
+			ctx = newFlipCtx(k)
+			how = fmt.Sprintf("context cancelled at its consultation number %d", k+1)
+		} else {
+			cctx, cancel := context.WithCancel(ctxBg)
+			d := time.Duration(rng.Intn(3000)) * time.Microsecond
+			t := time.AfterFunc(d, cancel)
+			defer t.Stop()
+			defer cancel()
+			ctx = cctx
+			how = fmt.Sprintf("context cancelled %v after Commit was called", d)
+		}
+		cerr := tx.Commit(ctx)
+		c.Evals++
+		plan := map[string]any{"seed": seed, "case": idx, "mode": modeName(mode), "level": level, "keys_in_commit": nk, "cancellation": how, "commit_result": fmt.Sprint(cerr)}
+		took := cerr == nil
+		if cerr != nil && mode == dbx.Grpc {
+			// over the wire a cancellation can cross the server's answer: the caller gets an error and
+			// cannot know whether the commit took effect. Either is legitimate - but it is all of the
+			// commit or nothing of it, and it does not change any more once the server is done
+			time.Sleep(60 * time.Millisecond)
+			if b, gerr := env.DB.Get(ctxBg, keys[0]); gerr == nil && bytes.Equal(b, writes[keys[0]]) {
+				took = true
+			}
+			plan["took_effect_although_the_caller_got_an_error"] = took
+		}
+		if took {
+			for k, v := range writes {
+				expect[k] = v
+			}
+		}
+		if !verify("right after the Commit", plan, keys) {
+			return c
+		}
+		time.Sleep(30 * time.Millisecond)
+		if !verify("30 ms after the Commit", plan, keys) {
+			return c
+		}
+		tx.Rollback(ctxBg)
+		c.AddDistinct(fmt.Sprintf("commitcancel/%s/keys=%d/committed=%v", modeName(mode), nk, cerr == nil))
+		c.Count("commits_cancelled_that_failed", b2i(cerr != nil))
+	}
+	if err := env.Reopen(); err != nil {
+		c.Violate("reopen-failed role=commitcancel", err.Error(), nil)
+		return c
+	}
+	verify("after a reopen", map[string]any{"seed": seed, "case": idx, "mode": modeName(mode)}, allKeys)
+	if idx == 0 {
+		c.Sample = map[string]any{"scenario": "Commit with a context that is cancelled on the way", "mode": modeName(mode)}
 	}
 	return c
 }
